@@ -21,6 +21,7 @@ func init() {
 			{ID: "R01.2", Title: "closure context: slot indices come from the matching compile-time list; parallel slices share the loop key; context allocated per closure creation", Floor: 16, Run: ruleR012},
 			{ID: "R01.3", Title: "scope recording: each ClosureLiteral carries the very Names/OuterIdents/Recursive its body was parsed with", Floor: 3, Run: ruleR013},
 			{ID: "R01.5", Title: "frame-layout algebra: Get/Push/CreateFrame/Init and the storage address exactly offs+n / offs+size / {offs+size-n, n}", Floor: 8, Run: ruleR015},
+			{ID: "R01.6", Title: "evaluation order: sub expressions are evaluated in reference order (A before B, value before inner, try before catch, callee/receiver before arguments)", Floor: 15, Run: ruleR016},
 			{ID: "R01.4", Title: "captured-name agreement between parseLiteral (emitted identifier names) and AddArgs (recorded outer names)", Floor: 1, Run: ruleR014},
 		},
 	})
@@ -73,6 +74,24 @@ func init() {
 			{ID: "R04.4", Title: "no explicit panic reachable from Parser.Parse inside package parser2", Floor: 1, Run: ruleR044},
 			{ID: "R04.6", Title: "default matchers: the start test implies the continuation predicate (symbolic implication over predicate atoms)", Floor: 2, Run: ruleR046},
 			{ID: "R04.5", Title: "result discipline: (result, nil) or (nil, non-nil error), never (nil, nil)", Floor: 90, Run: ruleR045},
+		},
+	})
+	register(&Property{
+		ID:        "C05",
+		Technique: "goroutine-boundary containment check (recover semantics modelled: recover must be called directly by the deferred function; role table of the iterator dependency verified against its source), flow-sensitive use-before-error-check on CFG guards, guard dominance for integer faults and range-checked arguments, call-graph reachability of explicit panics, frozen table of fresh-stack sites",
+		Explanation: "Decides structural fault-containment conditions: every goroutine that can run closures of the evaluated program starts with a deferred function that itself calls recover(), or every function handed to a goroutine-crossing combinator of the iterator dependency is a recovering adapter (and a recovered downstream panic is re-raised on the calling goroutine); " +
+			"no value returned together with an error is asserted/called/dereferenced before the error was compared with nil; integer division, modulo and signed shifts are guarded; arguments of panicking callees (rand.Intn, make, iterator.CombineN) are range checked; explicit panics reachable from evaluation are re-raises, the arg-package protocol or the recursion guard; " +
+			"the recursion guard exists and the try expression is evaluated under a recover; fresh value stacks (which restart the recursion guard) occur only at the listed sites. Not decided: absence of every Go run-time panic (index out of range, nil map), Go stack exhaustion, panics while a lazy result is consumed after Eval returned.",
+		Assumptions: []string{"host supplied matchers, operators and functions are not analysed", "the role table of the iterator dependency (which parameters run on another goroutine) is frozen in the checker and compared with the dependency's go statements on every run"},
+		Rules: []*Rule{
+			{ID: "R05.1", Title: "goroutine boundary containment: recovering entry or recovering adapters at every goroutine-crossing combinator", Floor: 5, Run: ruleR051},
+			{ID: "R05.2", Title: "no use of a value before the error returned with it was compared with nil", Floor: 20, Run: ruleR052},
+			{ID: "R05.3", Title: "integer division/modulo and signed shifts are guarded", Floor: 3, Run: ruleR053},
+			{ID: "R05.4", Title: "arguments of panicking callees (rand.Intn, make, strings.Repeat, iterator.CombineN) are range checked", Floor: 4, Run: ruleR054},
+			{ID: "R05.5", Title: "explicit panics reachable from evaluation: re-raise, arg protocol or recursion guard only", Floor: 3, Run: ruleR055},
+			{ID: "R05.6", Title: "fresh value stacks (recursion guard restarts) only at the listed sites", Floor: 8, Run: ruleR056},
+			{ID: "R05.8", Title: "recursion guard: the stack grows only below a constant bound", Floor: 1, Run: ruleR058},
+			{ID: "R05.9", Title: "try/catch evaluates the try expression under a recover", Floor: 2, Run: ruleR059},
 		},
 	})
 }
